@@ -238,6 +238,13 @@ func vpSetup(outDir string) {
 		MQConfigFile:    "mq.conf",
 		VFlowConfigPath: vpTmpDir,
 	}
+	if os.Getenv("VERIF_PIPE_MIRROR") != "" {
+		// C16: run the same pipelines with mirroring on (real dispatchers and mirror workers sharing the
+		// receive-buffer pools with the read loops); nothing listens on the target ports
+		mp := vpFreePorts(2)
+		opts.IPFIXMirrorAddr, opts.IPFIXMirrorPort, opts.IPFIXMirrorWorkers = "127.0.0.1", mp[0], 2
+		opts.SFlowMirrorAddr, opts.SFlowMirrorPort, opts.SFlowMirrorWorkers = "127.0.0.1", mp[1], 2
+	}
 	vpIPForm = vpLearnIPForm()
 
 	vpProtos = map[string]*vpProto{}
